@@ -27,7 +27,45 @@ const LOOK: [u32; 4] = [0, 8, 16, 0xE852_50D6];
 const REAL_BASE: usize = 1 << 25;
 const REAL_VARIANTS: [usize; NSLOTS] = [4, 3, 2, 2, 4, 1, 1, 2, 2, 4];
 
+/// Content seeds from DIST_BASE on: addresses at a small distance d from a base H (code = 2 * d + (1 if H = 0 else 0),
+/// H = 1 MiB otherwise): values that fall into, or just behind, the header itself when the header is taken to lie at H.
+const DIST_BASE: usize = 1 << 26;
+
 fn call(b: Builder, m: &mut Vec<Option<Vec<u8>>>, slot: usize, c: usize) -> Builder {
+    if c >= DIST_BASE {
+        let code = c - DIST_BASE;
+        let h: u32 = if code % 2 == 1 { 0 } else { 0x10_0000 };
+        let d = (code / 2) as u32;
+        let fl = HeaderTagFlag::Required;
+        return match slot {
+            1 => {
+                let t = AddressHeaderTag::new(fl, h, h, h + d, h + d);
+                m[slot] = Some(supplied(&t));
+                b.address_tag(t)
+            }
+            2 => {
+                let t = EntryAddressHeaderTag::new(fl, h + d);
+                m[slot] = Some(supplied(&t));
+                b.entry_tag(t)
+            }
+            7 => {
+                let t = EntryEfi32HeaderTag::new(fl, h + d);
+                m[slot] = Some(supplied(&t));
+                b.efi_32_tag(t)
+            }
+            8 => {
+                let t = EntryEfi64HeaderTag::new(fl, h + d);
+                m[slot] = Some(supplied(&t));
+                b.efi_64_tag(t)
+            }
+            9 => {
+                let t = RelocatableHeaderTag::new(fl, h, h + d, 8, RelocatableHeaderTagPreference::None);
+                m[slot] = Some(supplied(&t));
+                b.relocatable_tag(t)
+            }
+            _ => call(b, m, slot, (d % 4) as usize),
+        };
+    }
     if c >= REAL_BASE {
         let code = c - REAL_BASE;
         let fl = if code % 2 == 0 { HeaderTagFlag::Required } else { HeaderTagFlag::Optional };
@@ -367,6 +405,33 @@ fn run(ctx: &mut Ctx) {
                     ctx.state_direct();
                     ctx.nontrivial();
                     run_program(ctx, (code as u32 % 2) * 4, &prog, &|| format!("look-alike contents {} code {} shape {}", SLOT_NAMES[slot], code, shape));
+                });
+            }
+        }
+    }
+    // addresses relative to one another and to the header's own extent
+    ctx.bound("relative_addresses", "with H in {1 MiB, 0} and every distance d in 0..=260: address tag (header at H, load end / bss end at H + d) alone and followed by an entry / EFI32 entry / EFI64 entry address of H + d; a relocatable tag with the window H..H + d; each also behind an information request of 0..=3 entries (the built header is 40..130 bytes long, so d passes through every offset inside and just behind it)");
+    for d in 0..=260usize {
+        for h0 in 0..2usize {
+            let c = DIST_BASE + 2 * d + h0;
+            let mut progs: Vec<Vec<(usize, usize)>> = vec![vec![(1, c)], vec![(9, c)], vec![(1, c), (9, c)]];
+            for e in [2usize, 7, 8] {
+                progs.push(vec![(1, DIST_BASE + h0), (e, c)]);
+                progs.push(vec![(e, c), (1, DIST_BASE + h0)]);
+                progs.push(vec![(e, c)]);
+            }
+            let n = progs.len();
+            for i in 0..n {
+                let mut p = vec![(0usize, d % 4)];
+                p.extend(progs[i].iter().copied());
+                progs.push(p);
+            }
+            for prog in progs {
+                let describe = || J::obj().set("part", "relative_addresses").set("distance", d).set("base", if h0 == 1 { "0" } else { "1 MiB" }).set("calls", J::Arr(prog.iter().map(|(s, c)| J::from(format!("{}#{}", SLOT_NAMES[*s], if *c >= DIST_BASE { c - DIST_BASE } else { *c }))).collect()));
+                ctx.leaf(describe, |ctx| {
+                    ctx.state_direct();
+                    ctx.nontrivial();
+                    run_program(ctx, 0, &prog, &|| format!("relative addresses: distance {} base {} calls {:?}", d, if h0 == 1 { "0" } else { "1 MiB" }, prog.iter().map(|p| (SLOT_NAMES[p.0], if p.1 >= DIST_BASE { p.1 - DIST_BASE } else { p.1 })).collect::<Vec<_>>()));
                 });
             }
         }
